@@ -15,7 +15,7 @@ CLAIMED = {
                   "reals, int(str) spec; split's functional summary (determinism).", ref="7 C09"),
  "C11": dict(text="Deductive proof over all version triples / modes / ids of can_read, can_write, map_file_mode and the _check_header "
                   "decision table (format tag, write = exact version, read = same major & minor not newer, id required from 1.2.0).",
-             note="Trusted: HDF5 enforces ACC_RDONLY and TRUNC semantics (byte-level clauses are exercised only by the bounded battery C11/bounded/c11: 900 header variants, 25 mutating calls on a read-only file); uuid.UUID spec; "
+             note="Trusted: HDF5 enforces ACC_RDONLY and TRUNC semantics (byte-level clauses are exercised only by the bounded battery C11/bounded/c11: 900 header variants, 35 mutating calls on a read-only file); uuid.UUID spec; "
                   "attribute getters over the abstract store.", ref="7 C11"),
  "C19": dict(text="Deductive proof, per setter / force call, of the exact store footprint: the attribute (or dataset / link) written, "
                   "this entity's updated_at set to text(now) iff automatic timestamps are on, created_at written only by force/creation, "
